@@ -176,6 +176,12 @@ def step (s : St) (fs : List String) : St × String :=
           (if c.st.next = n then "-" else toString n))
       | none => (s, "bad-op")
     | _, _, _, _, _, _ => (s, "bad-op")
+  | ["nscase", "cubby-in-child"] =>
+    -- the cubbyhole of a revoked token is removed wherever the router let the token write it (`C04.destroy_clears_routed_key`)
+    (s, "ok|dead|cubby:0/0")
+  | ["nscase", "tidy-child"] =>
+    -- tidy removes no index entry of a live child, whichever namespace the child lives in: the cascade still reaches it
+    (s, "ok|ok|child:dead")
   | ["nscase", _how] =>
     -- a root-namespace token with a lease obtained in a child namespace, revoked in any way (also revoke-orphan sent
     -- through the child namespace): rejected afterwards, the lease revoked at its backend (`C04.revoke_cascade_seq`
